@@ -73,10 +73,12 @@ type CallState struct {
 }
 
 type waiter struct {
-	id   uint64
-	site string
-	call *CallState
-	ch   chan struct{}
+	id      uint64
+	site    string
+	call    *CallState
+	ch      chan struct{}
+	task    int
+	blocked bool // parked on a simulated sync object until its releaser re-posts it
 }
 
 type kmsg struct {
@@ -137,7 +139,9 @@ type Kernel struct {
 	Panics  []string
 
 	// race detector / access probes (C17)
-	Race *RaceDetector
+	Race    *RaceDetector
+	cur     int // task the kernel released last (client task = call index, server task = 1000+conn id)
+	curCall *CallState
 
 	// Server-side observations
 	ServerPanics int
@@ -298,6 +302,9 @@ func (k *Kernel) handle(m kmsg) {
 		k.conns = append(k.conns, m.conn)
 		m.conn.call.Conns = append(m.conn.call.Conns, m.conn)
 		k.Event("dial", "conn=%d op=%d bytes=%d h=%s", m.conn.id, m.conn.call.Op.ID, len(m.conn.c2s.pending), shortHash(m.conn.c2s.pending))
+		if k.Race != nil {
+			m.conn.sendClock = k.Race.snapshot(m.conn.call.Idx)
+		}
 		k.applyDialFaults(m.conn)
 	case "park":
 		k.nextWID++
@@ -310,6 +317,9 @@ func (k *Kernel) handle(m kmsg) {
 		c.RetAt = k.Now()
 		k.Event("client-return", "op=%d %s", c.Op.ID, outcomeClass(c))
 	case "srvdone":
+		if k.Race != nil {
+			m.conn.respClock = k.Race.snapshot(1000 + m.conn.id)
+		}
 		k.Event("server-done", "conn=%d status=%d bytes=%d", m.conn.id, m.conn.status, len(m.conn.s2c.pending))
 	}
 }
@@ -340,7 +350,7 @@ func (k *Kernel) Yield(call *CallState, site string) {
 	if k == nil || k.closing {
 		return
 	}
-	w := &waiter{site: site, call: call, ch: make(chan struct{})}
+	w := &waiter{site: site, call: call, ch: make(chan struct{}), task: k.cur}
 	ord := 0
 	if call != nil {
 		ord = call.Idx
@@ -353,6 +363,11 @@ func (k *Kernel) Yield(call *CallState, site string) {
 func (k *Kernel) Run() {
 	k.t0 = time.Now()
 	k.inbox = make(chan kmsg, 4096)
+	k.cur = setupTask
+	if k.Plan.Race {
+		k.Race = newRaceDetector()
+	}
+	Current = k
 	k.setup()
 	const idleCap = 2 * time.Hour
 	for {
@@ -421,6 +436,7 @@ func (k *Kernel) exec(ev event) {
 	case "start":
 		k.Event("start", "op=%d rpc=%s client=%s server=%s", ev.call.Op.ID, ev.call.Op.RPC, ev.call.Op.Client, ev.call.Op.Server)
 		fmt.Fprintf(k.ilHash, "%d|", ev.call.Idx)
+		k.cur, k.curCall = ev.call.Idx, ev.call
 		k.startCall(ev.call)
 	case "cancel":
 		ev.call.cancelFired = true
@@ -431,9 +447,24 @@ func (k *Kernel) exec(ev event) {
 		ev.conn.accepted = true
 		k.Event("accept", "conn=%d", ev.conn.id)
 		fmt.Fprintf(k.ilHash, "%d|", ev.conn.call.Idx)
+		k.cur, k.curCall = 1000+ev.conn.id, ev.conn.call
+		if k.Race != nil {
+			k.Race.acquire(k.cur, ev.conn.sendClock)
+		}
 		k.accept(ev.conn)
 	case "deliver":
 		fmt.Fprintf(k.ilHash, "%d%s|", ev.link.conn.call.Idx, ev.link.dir)
+		if ev.link.dir == "req" {
+			k.cur, k.curCall = 1000+ev.link.conn.id, ev.link.conn.call
+			if k.Race != nil {
+				k.Race.acquire(k.cur, ev.link.conn.sendClock)
+			}
+		} else {
+			k.cur, k.curCall = ev.link.conn.call.Idx, ev.link.conn.call
+			if k.Race != nil {
+				k.Race.acquire(k.cur, ev.link.conn.respClock)
+			}
+		}
 		ev.link.deliver(k)
 	case "resume":
 		for i, w := range k.parked {
@@ -448,12 +479,14 @@ func (k *Kernel) exec(ev event) {
 		}
 		fmt.Fprintf(k.ilHash, "%d@%s|", ci, ev.w.site)
 		k.Event("resume", "site=%s op=%d", ev.w.site, ci)
+		k.cur, k.curCall = ev.w.task, ev.w.call
 		close(ev.w.ch)
 	}
 }
 
 func (k *Kernel) teardown() {
 	k.closing = true
+	k.cur = setupTask
 	for _, c := range k.Calls {
 		if c.cancel != nil {
 			c.cancel()
